@@ -73,4 +73,5 @@ pub(crate) fn c20_xor_keystream_mut_short_keystream_panics() {
     let bl: usize = any();
     assume(kl <= 8 && bl <= 8 && bl > kl);
     xor_keystream_mut(&mut buf[..bl], &ks[..kl]);
+    vcover!(true, "MUST-NOT: returned normally instead of refusing");
 }
